@@ -4,7 +4,7 @@ set -e
 id="$1"; shift
 W="/tmp/w_$id"
 cd /verif
-git pull --no-edit -q "$W/verif" || { echo "MERGE CONFLICT"; exit 1; }
+git pull --no-rebase --no-edit -q "$W/verif" || { echo "MERGE CONFLICT"; exit 1; }
 for c in "$@"; do
   git -C /repo cherry-pick -x "$c" || { echo "CHERRY-PICK FAILED $c"; exit 1; }
 done
